@@ -631,3 +631,122 @@ Qed.
 Lemma relation_polygon_ext (ts ts' : tags) :
   find "type" ts = find "type" ts' -> relation_polygon ts = relation_polygon ts'.
 Proof. intros H. unfold relation_polygon. rewrite H. reflexivity. Qed.
+
+(* ------------------------------------------------------------------ *)
+(* 7. boolean equality of code-side tables is equality                 *)
+(* ------------------------------------------------------------------ *)
+
+Lemma strs_eqb_eq (a b : list string) : strs_eqb a b = true -> a = b.
+Proof.
+  revert b. induction a as [|x a IH]; intros [|y b] H; try discriminate H; [reflexivity|].
+  cbn [strs_eqb] in H. apply andb_true_iff in H. destruct H as [H1 H2].
+  apply String.eqb_eq in H1. subst. f_equal. exact (IH b H2).
+Qed.
+
+Lemma rule_eqb_eq (a b : rule) : rule_eqb a b = true -> a = b.
+Proof.
+  destruct a as [ka ca va], b as [kb cb vb]. unfold rule_eqb. cbn [rkey rcond rvalues].
+  intros H. apply andb_true_iff in H. destruct H as [H Hv].
+  apply andb_true_iff in H. destruct H as [Hk Hc].
+  apply String.eqb_eq in Hk. apply strs_eqb_eq in Hv. subst.
+  destruct ca, cb; try discriminate Hc; reflexivity.
+Qed.
+
+Lemma rules_eqb_eq (a b : list rule) : rules_eqb a b = true -> a = b.
+Proof.
+  revert b. induction a as [|x a IH]; intros [|y b] H; try discriminate H; [reflexivity|].
+  cbn [rules_eqb] in H. apply andb_true_iff in H. destruct H as [H1 H2].
+  apply rule_eqb_eq in H1. subst. f_equal. exact (IH b H2).
+Qed.
+
+(* ------------------------------------------------------------------ *)
+(* 8. the literal published rule vs the "empty value = absent" reading *)
+(* ------------------------------------------------------------------ *)
+
+Lemma published_area_iff_spec_area (ts : tags) :
+  no_empty_listed ts -> (published_area SpecTable ts <-> spec_area SpecTable ts).
+Proof.
+  intros Hne. unfold published_area, spec_area. split; intros [Hno H]; (split; [exact Hno|]).
+  - destruct H as [H|[k [c [vals [v [Hs [Hin [Hnn Hok]]]]]]]]; [left; exact H|right].
+    exists k, c, vals, v. split; [exact Hs|]. split; [exact Hin|]. split; [|split; assumption].
+    intros E. subst v. exact (Hne k c vals Hs Hin).
+  - destruct H as [H|[k [c [vals [v [Hs [Hin [_ [Hnn Hok]]]]]]]]]; [left; exact H|right].
+    exists k, c, vals, v. repeat split; assumption.
+Qed.
+
+Lemma no_empty_listedb_iff (ts : tags) : no_empty_listedb ts = true <-> no_empty_listed ts.
+Proof.
+  unfold no_empty_listedb, no_empty_listed, has. rewrite forallb_forall. split.
+  - intros H k c vals Hs Hin. specialize (H (k, c, vals) Hs). cbn in H.
+    apply negb_true_iff in H.
+    assert (E : existsb (fun t => String.eqb (fst t) k && String.eqb (snd t) "") ts = true).
+    { apply existsb_exists. exists (k, ""). split; [exact Hin|]. cbn. rewrite String.eqb_refl. reflexivity. }
+    congruence.
+  - intros H [[k c] vals] Hs. apply negb_true_iff.
+    destruct (existsb (fun t => String.eqb (fst t) k && String.eqb (snd t) "") ts) eqn:E; [|reflexivity].
+    exfalso. apply existsb_exists in E. destruct E as [[k' v'] [Hin E]]. cbn in E.
+    apply andb_true_iff in E. destruct E as [E1 E2].
+    apply String.eqb_eq in E1. apply String.eqb_eq in E2. cbn in E1, E2. rewrite E1, E2 in Hin.
+    exact (H k c vals Hs Hin).
+Qed.
+
+(* the optional lookup on a tag set *)
+Lemma lookup_opt_in (ts : tags) (k v : string) :
+  NoDup (keys ts) -> (lookup_opt ts k = Some v <-> In (k, v) ts).
+Proof.
+  unfold lookup_opt. induction ts as [|[k' v'] r IH]; intros Hnd.
+  - cbn. split; [discriminate|contradiction].
+  - cbn [keys map fst] in Hnd. inversion Hnd as [|? ? Hnotin Hnd']; subst.
+    cbn [filter fst]. destruct (String.eqb k' k) eqn:E.
+    + apply String.eqb_eq in E. subst k'. rewrite (filter_key_notin k r Hnotin). split.
+      * intros H. injection H as ->. left. reflexivity.
+      * intros [H|H]; [injection H as ->; reflexivity|].
+        exfalso. apply Hnotin. change (In k (keys r)). unfold keys. apply in_map_iff.
+        exists (k, v). split; [reflexivity|exact H].
+    + rewrite (IH Hnd'). apply String.eqb_neq in E. split; [intros H; right; exact H|].
+      intros [H|H]; [injection H as -> _; contradiction|exact H].
+Qed.
+
+Lemma lookup_opt_none (ts : tags) (k : string) :
+  NoDup (keys ts) -> lookup_opt ts k = None -> forall v, ~ In (k, v) ts.
+Proof.
+  intros Hnd H v Hin. apply (lookup_opt_in ts k v Hnd) in Hin. congruence.
+Qed.
+
+Lemma published_areab_iff (S : list srule) (ts : tags) :
+  NoDup (keys ts) ->
+  (published_areab S (lookup_opt ts) = true <-> published_area S ts).
+Proof.
+  intros Hnd. unfold published_areab, published_area, has. split.
+  - intros H. apply andb_true_iff in H. destruct H as [Hno H].
+    apply negb_true_iff, String.eqb_neq in Hno. split.
+    + intros Hin. apply (lookup_opt_in ts "area" "no" Hnd) in Hin. rewrite Hin in Hno. congruence.
+    + apply orb_true_iff in H. destruct H as [H|H].
+      * left. apply negb_true_iff, String.eqb_neq in H.
+        destruct (lookup_opt ts "area") as [a|] eqn:E; [|congruence].
+        exists a. split; [apply (lookup_opt_in ts "area" a Hnd); exact E|exact H].
+      * right. apply existsb_exists in H. destruct H as [[[k c] vals] [Hs F]].
+        unfold psrule_fires in F. destruct (lookup_opt ts k) as [v|] eqn:E; [|discriminate].
+        apply andb_true_iff in F. destruct F as [Hnn Hok].
+        apply negb_true_iff, String.eqb_neq in Hnn.
+        exists k, c, vals, v. split; [exact Hs|]. split; [apply (lookup_opt_in ts k v Hnd); exact E|].
+        split; [exact Hnn|apply rule_okb_iff; exact Hok].
+  - intros [Hno H]. apply andb_true_iff. split.
+    + apply negb_true_iff, String.eqb_neq. intros E. apply Hno.
+      destruct (lookup_opt ts "area") as [a|] eqn:Ea; [|discriminate E].
+      subst a. apply (lookup_opt_in ts "area" "no" Hnd). exact Ea.
+    + apply orb_true_iff. destruct H as [[v [Hin Hne]]|[k [c [vals [v [Hs [Hin [Hnn Hok]]]]]]]].
+      * left. apply (lookup_opt_in ts "area" v Hnd) in Hin. rewrite Hin.
+        apply negb_true_iff, String.eqb_neq. exact Hne.
+      * right. apply existsb_exists. exists (k, c, vals). split; [exact Hs|].
+        unfold psrule_fires. apply (lookup_opt_in ts k v Hnd) in Hin. rewrite Hin.
+        apply andb_true_iff. split; [apply negb_true_iff, String.eqb_neq; exact Hnn|apply rule_okb_iff; exact Hok].
+Qed.
+
+Lemma published_polygonb_iff (nodes : list Z) (ts : tags) :
+  NoDup (keys ts) ->
+  (published_polygonb nodes (lookup_opt ts) = true <-> published_polygon nodes ts).
+Proof.
+  intros Hnd. unfold published_polygonb, published_polygon.
+  rewrite andb_true_iff, closed_ringb_iff, (published_areab_iff SpecTable ts Hnd). reflexivity.
+Qed.
